@@ -3,20 +3,39 @@ import RpmVerif.Model.Header
 import RpmVerif.Model.PgpFraming
 import RpmVerif.Model.Accessors
 import RpmVerif.Driver.FileIterObs
+import RpmVerif.Model.Io
+import RpmVerif.Spec.Alloc
 /-! Driver for C04. Op `hostile BYTES`. The implementation's observation lists an outcome class per
 read-side stage; the model predicts the parse stages (ok / err — it has no reachable panic, Props/C04)
 and copies the classes of stages it does not model (accessors, `fmt` = Display / Debug of the parsed values, digests, …). Spec: no stage may be `panic`, the process may not
-die (`abort`), no single allocation may exceed 64 MiB + 16·|input| (`alloc-excess`), and the file iterator must
-end even for a consumer that keeps pulling after an error (`iter=runaway`: unbounded work / memory).
+die (`abort`), the file iterator must end even for a consumer that keeps pulling after an error (`iter=runaway`: unbounded
+work / memory), and memory stays in proportion to the input (`Spec/Alloc.lean`; the harness MEASURES — token
+`mem=<largest single request>@<stage>,<peak live bytes>@<stage>,<cumulative bytes> pmem=<peak during the two parse stages>,<bytes
+the parsed Package keeps>` — and this driver judges): single request ≤ 64 KiB + 64·|input| (`fails:alloc-single-<stage>`; the
+harness' own `alloc-excess:<stage>` prefix is the same criterion and names the stage that tripped it first), peak ≤ 64 KiB +
+128·|input| (`fails:alloc-live-<stage>`, or `fails:alloc-kept-quadratic` when the MODEL's account of the same input — the decoded
+entry data `Header::parse` keeps, `Hdr.parsePackageAcct` — is itself beyond the limit: the code as modelled does this, theorem
+`C04.harness_limit_refuted`), cumulative ≤ 1 MiB + 1024·|input| (`fails:alloc-total`). The `mem=` numbers are copied into the
+model line when they fit the model's account (what the parsed value keeps ≤ measured; measured peak of the parse stages ≤
+2 × the account + 16 KiB: vectors grow by doubling) and replaced by `mem=outside-model-account:…` otherwise — a broken tie.
+Op `alloc04 WHICH N S TY OFF CNT FILL`: the same stages on a package whose signature (`s`) / main (`h`) header has N identical
+entries (tag 1000, type TY, offset OFF, count CNT) over an S-byte store (FILL 0 = zeros, 1 = 'a's with a final NUL, 2 = 'a',NUL
+pairs); both sides build the bytes from the parameters, the observation ends with ` len=<n> fnv=<hash>` of the harness' bytes.
 The `iter=` field of uncompressed payloads IS predicted: `Acc.getFileEntries` (the header's file list) +
 `FileIter.collectMem` (`FileIterator::next` as a state machine on the in-memory stream, drained past error items like
 `collect()` does) give the number of items, their Ok / Err classes and the hash of their paths and contents
 (`iter=<k>:<classes>:<fnv>`, `iter=err` when `files()` itself fails); the model never says `runaway`
-(Props/C04Readside `iterator_no_runaway`). -/
+(Props/C04Readside `iterator_no_runaway`).
+
+Op `hostsrc04 BYTES`: the same bytes through every source kind / entry point in the child (`parse=` slice, `cur=` io::Cursor,
+`open=` / `opens=` Package::open on a file by `&Path` / `&str`, `bufr=` a 16-byte BufReader over the file, `mopen=`
+PackageMetadata::open). Model: `parsePackage`, `Io.parseChunked` under an empty script / 8192-byte chunks / 16-byte chunks,
+`Io.parseMetadataC` — all equal by C14.read_chunk_indep, here computed. Spec: as for `hostile` (no panic, no abort, no
+excess allocation), and no source kind may ACCEPT what another rejects (class `source-kinds-differ`). -/
 namespace RpmVerif.Driver.C04
 open RpmVerif.Hdr RpmVerif.Driver
 
-def ops : List String := ["hostile", "pgpframes"]
+def ops : List String := ["hostile", "pgpframes", "hostsrc04", "alloc04"]
 
 def clsOf {α} : Out α → String | .ok _ => "ok" | .err _ => "err" | .panic _ => "panic"
 
@@ -36,18 +55,47 @@ def framesHandle (bs : Bytes) (impl : String) : String :=
     else "fails:malformed"
   answer m v (match RpmVerif.Pgp.splitPackets bs with | none => "frames-refused" | some ps => s!"frames-{min ps.length 3}")
 
-def handle (op : String) (args : List String) (impl : String) : String :=
-  if op == "pgpframes" then
-    match args with
-    | [hb] => match bytesOfHex hb with | some bs => framesHandle bs impl | none => badReq "hex"
-    | _ => badReq "args"
-  else
-  match args with
-  | [hb] =>
-    match bytesOfHex hb with
-    | none => badReq "hex"
-    | some bs =>
-      let pm := clsOf (parsePackage bs)
+def chunks (n cap : Nat) : List Io.Chunk := List.replicate (n / cap + 8) (Io.Chunk.size cap)
+
+def srcHandle (bs : Bytes) (impl : String) : String :=
+  let n := bs.length
+  let model := s!"parse={clsOf (parsePackage bs)} cur={clsOf (Io.parseChunked bs [])} open={clsOf (Io.parseChunked bs (chunks n 8192))} " ++
+    s!"opens={clsOf (Io.parseChunked bs (chunks n 8192))} bufr={clsOf (Io.parseChunked bs (chunks n 16))} mopen={clsOf (Io.parseMetadataC ⟨bs, chunks n 8192⟩)}"
+  let toks := (impl.splitOn " ").filter (· ≠ "")
+  -- the child's memory report (`mem=… pmem=…`, appended to every child observation) is not predicted here: copied
+  let memTail := (toks.filter fun t => t.startsWith "mem=" || t.startsWith "pmem=").foldl (fun acc t => acc ++ " " ++ t) ""
+  let model := model ++ memTail
+  let bad := toks.filter fun t => t == "abort" || t.startsWith "alloc-excess" || t.endsWith "=panic"
+  let pk := toks.filter fun t => ["parse=", "cur=", "open=", "opens=", "bufr="].any fun pre => t.startsWith pre
+  let classes := (pk.map fun t => ((t.splitOn "=").getD 1 "")).eraseDups
+  let verdict := match bad with
+    | b :: _ => "fails:" ++ ((b.replace "=" "-").replace ":" "-")
+    | [] => if classes.length > 1 then "fails:source-kinds-differ" else "holds"
+  let errBranch := match parseMetadata bs with | .err c => c | .ok _ => "accepted" | .panic s => "panic-" ++ s
+  answer model verdict ("src-meta-" ++ errBranch)
+
+/-- `mem=<single>@<stage>,<peak>@<stage>,<total>` → (single, stage, peak, stage, total) -/
+def parseMem (t : String) : Option (Nat × String × Nat × String × Nat) :=
+  match ((t.drop 4).toString.splitOn ",") with
+  | [a, b, c] =>
+    match a.splitOn "@", b.splitOn "@", c.toNat? with
+    | [s, sa], [p, pa], some tot =>
+      match s.toNat?, p.toNat? with
+      | some s, some p => some (s, sa, p, pa, tot)
+      | _, _ => none
+    | _, _, _ => none
+  | _ => none
+
+/-- `pmem=<peak of the parse stages>,<kept by the parsed Package>` -/
+def parsePmem (t : String) : Option (Nat × Nat) :=
+  match ((t.drop 5).toString.splitOn ",") with
+  | [a, b] => match a.toNat?, b.toNat? with | some a, some b => some (a, b) | _, _ => none
+  | _ => none
+
+/-- the whole read side on the bytes `bs` (ops `hostile`, `alloc04`) -/
+def hostileHandle (bs : Bytes) (impl : String) : String :=
+      let pkg := parsePackage bs
+      let pm := clsOf pkg
       let mm := clsOf (parseMetadata bs)
       let toks := (impl.splitOn " ").filter (· ≠ "")
       let bad := toks.filter fun t => t == "abort" || t.startsWith "alloc-excess" || t.endsWith "=panic" || t == "iter=runaway"
@@ -55,7 +103,7 @@ def handle (op : String) (args : List String) (impl : String) : String :=
       -- the drained file iterator (uncompressed payloads; the harness says `skip` otherwise)
       let iterModel (implTok : String) : String :=
         if implTok == "iter=skip" then implTok else
-        match parsePackage bs with
+        match pkg with
         | .ok p =>
           (match RpmVerif.Acc.getFileEntries p.md.signature p.md.header with
           | .ok fes =>
@@ -63,13 +111,88 @@ def handle (op : String) (args : List String) (impl : String) : String :=
             "iter=" ++ FileIterObs.allObs (RpmVerif.FileIter.collectMem p.content paths (fes.map (·.size))) (fun i => paths.getD i [])
           | _ => "iter=err")
         | _ => implTok
-      let rest := rest.map fun t => if t.startsWith "iter=" then iterModel t else t
+      -- memory: the model's account of the same input, and the limits of Spec/Alloc.lean
+      let len := bs.length
+      let acct := parsePackageAcct bs
+      let mem := (toks.find? (·.startsWith "mem=")).bind parseMem
+      let pmem := (toks.find? (·.startsWith "pmem=")).bind parsePmem
+      let accepted := match pkg with | .ok _ => true | _ => false
+      let upper := 2 * acct.live + 16384
+      let inAccount : Bool := match pmem with
+        | some (ppeak, plive) => decide (ppeak ≤ upper) && (!accepted || decide (acct.kept ≤ plive))
+        | none => true
+      let memBad : List String := match mem with
+        | some (single, sAt, peak, pAt, total) =>
+          (if single > AllocSpec.singleLimit len then [s!"alloc-single-{sAt}"] else [])
+          ++ (if peak > AllocSpec.liveLimit len then
+                [if acct.dataKept > AllocSpec.liveLimit len then "alloc-kept-quadratic" else s!"alloc-live-{pAt}"] else [])
+          ++ (if total > AllocSpec.totalLimit len then ["alloc-total"] else [])
+        | none => if toks.any (· == "abort") then [] else ["mem-token-missing"]
+      let rest := rest.map fun t =>
+        if t.startsWith "iter=" then iterModel t
+        else if t.startsWith "pmem=" && !inAccount then s!"pmem=outside-model-account:{acct.kept}..{upper}"
+        else t
       let model := " ".intercalate ([s!"parse={pm}", s!"meta={mm}"] ++ rest.filter (fun t => t != "abort" && !t.startsWith "alloc-excess"))
-      let verdict := match bad with
-        | [] => "holds"
-        | b :: _ => "fails:" ++ ((b.replace "=" "-").replace ":" "-")
+      let verdict := match memBad, bad with
+        | m :: _, _ => "fails:" ++ m
+        | [], [] => "holds"
+        | [], b :: _ => "fails:" ++ ((b.replace "=" "-").replace ":" "-")
       let errBranch := match parseMetadata bs with | .err c => c | .ok _ => "accepted" | .panic s => "panic-" ++ s
       answer model verdict ("meta-" ++ errBranch)
+
+/-- the lead every `alloc04` package starts with (harness: `gen_lead(&mut Rng::new(7), false)`: fixed bytes) -/
+def allocLead : Bytes :=
+  [0xed, 0xab, 0xee, 0xdb, 3, 0, 0, 0, 0, 1] ++ [116, 101, 115, 116] ++ List.replicate 62 0 ++ [0, 1, 0, 5] ++ List.replicate 16 0
+
+def allocStore (s fill : Nat) : Bytes :=
+  match fill with
+  | 1 => if s = 0 then [] else List.replicate (s - 1) 97 ++ [0]
+  | 2 => (List.range s).map fun i => if i % 2 == 0 then 97 else 0
+  | _ => List.replicate s 0
+
+/-- header bytes: intro, `n` identical index entries, the store -/
+def allocHeader (n s ty off cnt fill : Nat) : Bytes :=
+  RpmVerif.Gen.HEADER_MAGIC ++ [1, 0, 0, 0, 0] ++ be32 n ++ be32 s
+    ++ (List.replicate n (be32 1000 ++ be32 ty ++ be32 off ++ be32 cnt)).flatten ++ allocStore s fill
+
+def allocPackage (which : String) (n s ty off cnt fill : Nat) : Bytes :=
+  let empty : Bytes := RpmVerif.Gen.HEADER_MAGIC ++ [1, 0, 0, 0, 0] ++ be32 0 ++ be32 0
+  let h := allocHeader n s ty off cnt fill
+  if which == "s" then allocLead ++ h ++ List.replicate (sigPad s) 0 ++ empty
+  else allocLead ++ empty ++ h
+
+def handle (op : String) (args : List String) (impl : String) : String :=
+  if op == "hostsrc04" then
+    match args with
+    | [hb] => match bytesOfHex hb with | some bs => srcHandle bs impl | none => badReq "hex"
+    | _ => badReq "args"
+  else
+  if op == "pgpframes" then
+    match args with
+    | [hb] => match bytesOfHex hb with | some bs => framesHandle bs impl | none => badReq "hex"
+    | _ => badReq "args"
+  else if op == "alloc04" then
+    match args with
+    | [which, n, s, ty, off, cnt, fill] =>
+      match n.toNat?, s.toNat?, ty.toNat?, off.toNat?, cnt.toNat?, fill.toNat? with
+      | some n, some s, some ty, some off, some cnt, some fill =>
+        let bs := allocPackage which n s ty off cnt fill
+        -- the harness built its bytes from the same parameters: they must be the same bytes
+        let tail := s!" len={bs.length} fnv={hex16 (fnv bs)}"
+        if impl.endsWith tail then
+          let r := hostileHandle bs (impl.dropEnd tail.length).toString
+          match r.splitOn " | " with
+          | [m, v, b] => answer (m ++ tail) v ("alloc04-" ++ b)
+          | _ => r
+        else answer ("construction-mismatch" ++ tail) "dontcare" "alloc04-mismatch"
+      | _, _, _, _, _, _ => badReq "numbers"
+    | _ => badReq "args"
+  else
+  match args with
+  | [hb] =>
+    match bytesOfHex hb with
+    | none => badReq "hex"
+    | some bs => hostileHandle bs impl
   | _ => badReq "args"
 
 end RpmVerif.Driver.C04
